@@ -209,37 +209,46 @@ Definition add_or_merge (info : finfo) (key : string) (child : finfo) : option f
   | None => Some (FI (fi_children info ++ [(key, child)]) (fi_mapf info))
   end.
 
-(* buildFieldsInfo (any type) / buildNamedFieldInfo (type of a named field) / buildStructFieldsInfo *)
-Fixpoint info_any (t : ftype) : option finfo :=
+(* buildFieldsInfo (any type) / buildNamedFieldInfo (type of a named field) / buildStructFieldsInfo.
+   [fx = true] is the current code: a map nested inside another container keeps its own layer
+   (mapField).  [fx = false] is the pinned code (Pinned.v only), where buildFieldsInfo went
+   straight through a nested map to its element type. *)
+Fixpoint info_any_v (fx : bool) (t : ftype) : option finfo :=
   match t with
   | TPrim _ => Some fi_empty
-  | TPtr t' => info_any t'
-  | TSlice e | TMap e => info_any e
-  | TStruct fs => info_fields fs fi_empty
+  | TPtr t' => info_any_v fx t'
+  | TSlice e => info_any_v fx e
+  | TMap e => if fx then option_map (fun ei => FI [] (Some ei)) (info_any_v fx e) else info_any_v fx e
+  | TStruct fs => info_fields_v fx fs fi_empty
   end
-with info_named (t : ftype) : option finfo :=
+with info_named_v (fx : bool) (t : ftype) : option finfo :=
   match t with
   | TPrim _ => Some fi_empty
-  | TPtr t' => info_named t'
-  | TStruct fs => info_fields fs fi_empty
-  | TSlice e => info_any e
-  | TMap e => option_map (fun ei => FI [] (Some ei)) (info_any e)
+  | TPtr t' => info_named_v fx t'
+  | TStruct fs => info_fields_v fx fs fi_empty
+  | TSlice e => info_any_v fx e
+  | TMap e => option_map (fun ei => FI [] (Some ei)) (info_any_v fx e)
   end
-with info_fields (fs : fields) (acc : finfo) : option finfo :=
+with info_fields_v (fx : bool) (fs : fields) (acc : finfo) : option finfo :=
   match fs with
   | FNil => Some acc
   | FCons key _ t rest =>
-    obnd (info_named t) (fun fi => obnd (add_or_merge acc (lower key) fi) (fun acc' => info_fields rest acc'))
+    obnd (info_named_v fx t)
+         (fun fi => obnd (add_or_merge acc (lower key) fi) (fun acc' => info_fields_v fx rest acc'))
   | FEmbed _ _ inner rest =>
     (* buildAnonymousFieldInfo: the members' infos are merged into the enclosing struct's *)
-    obnd (info_fields inner fi_empty)
+    obnd (info_fields_v fx inner fi_empty)
          (fun si => obnd ((fix add_all (acc : finfo) (l : list (string * finfo)) : option finfo :=
                              match l with
                              | [] => Some acc
                              | (k, v) :: r => obnd (add_or_merge acc k v) (fun acc' => add_all acc' r)
                              end) acc (fi_children si))
-                         (fun acc' => info_fields rest acc'))
+                         (fun acc' => info_fields_v fx rest acc'))
   end.
+
+Definition info_any := info_any_v true.
+Definition info_named := info_named_v true.
+Definition info_fields := info_fields_v true.
 
 (* a struct with NAME-TAGGED embedded fields, for the comparison with encoding/json only
    (mapping and conf ignore the name of an anonymous struct field): named fields and embedded (anonymous) structs *)
